@@ -28,9 +28,25 @@ def registryRowOk (r : Str × Nat × Nat × Nat) : Bool :=
 
 /-- every accepted magic resolves to a tuple and to an opcode table (observed for
     both outcomes of the file-name test in `is_pypy`) -/
+def pypyStr : Str := [112, 121, 112, 121]
+example : pypyStr = str "pypy" := by decide
+
+/-- "pypy" occurs in the name -/
+def namesPypy : Str → Bool
+  | [] => false
+  | c :: cs => pypyStr.isPrefixOf (c :: cs) || namesPypy cs
+
+/-- when `is_pypy(magic, filename)` says PyPy, the table `get_opcode` hands out is a PyPy table -/
+def pypyTableOk (flag : Option Bool) (tbl : Option (Option Str)) : Bool :=
+  match flag, tbl with
+  | some true, some (some n) => namesPypy n
+  | _, _ => true
+
 def acceptedRowOk (p : Nat × Str) : Bool :=
   (implTuple p.1).isSome && ((Gen.implOpc.lookup p.1).join).isSome &&
-  ((Gen.implOpcPypy38.lookup p.1).join).isSome
+  ((Gen.implOpcPypy38.lookup p.1).join).isSome &&
+  pypyTableOk (Gen.implIsPypyPlain.lookup p.1) (Gen.implOpc.lookup p.1) &&
+  pypyTableOk (Gen.implIsPypy38.lookup p.1) (Gen.implOpcPypy38.lookup p.1)
 
 /-- label micro number: "3.5.2" ↦ some 2; "3.5b1" ↦ none -/
 def labelMicro (l : Str) : Option Nat :=
